@@ -32,6 +32,8 @@ Check C17_oracle_accepts_model : forall (exact : bool) (sc1 sc2 : Q) (l : list Q
   l <> [] -> (0 <= sd)%Q -> (sd * sd == this (d_var (s_disp (ds_run l))))%Q ->
   batch_ok_gen exact sc1 sc2 l (obs_of_ds (ds_run l) sd) = true.
 
+Check C17_oracle_sound : forall c : case, corr_b c = true -> prop_b c = true.
+
 (* the definitions the statements rest on, pinned by evaluation *)
 Definition q (n : Z) (d : positive) : Qc := Q2Qc (n # d).
 Check eq_refl : this (calc_mean (q 1 1) (q 4 1) (q 3 1)) = (2 # 1)%Q.
